@@ -136,6 +136,7 @@ def check_instance(c, t, key, rp, thorough):
         vs.append(violation("scale_invariance", dict(key, perturbation="solve the same inputs again"),
                             "%s round %s: percent fed %.9g, and %s when the same input objects are solved a second time" % (key["iso3"], key["round"], p0, "%.9g" % p0b if p0b is not None else "infeasible"),
                             dict(rp, perturbation="solve the same inputs again")))
+    got = {}
     for name, sign, fn in perturbations(c, t, thorough):
         cc, tt = copy.deepcopy(c), copy.deepcopy(t)
         fn(cc, tt)
@@ -147,10 +148,20 @@ def check_instance(c, t, key, rp, thorough):
         tol = TOL * max(1.0, abs(p0))
         if abs(p - p0) > tol:
             stats["moved"] += 1
+        got[name] = p
         bad = (sign > 0 and p < p0 - tol) or (sign < 0 and p > p0 + tol) or (sign == 0 and abs(p - p0) > tol)
         if bad:
             law = {1: "more_supply_or_less_waste_never_lowers", -1: "more_charge_never_raises", 0: "scale_invariance"}[sign]
             vs.append(violation(law, dict(key, perturbation=name), "%s round %s %s: percent fed %.9g -> %.9g" % (key["iso3"], key["round"], name, p0, p), dict(rp, perturbation=name)))
+    # chains: the law holds between any two points of a chain, not only against the unperturbed instance - waste w -> w/2 -> 0
+    tol = TOL * max(1.0, abs(p0))
+    for name, p in got.items():
+        if name.startswith("waste=0"):
+            half = got.get("waste/2:" + name.split(":", 1)[1])
+            if half is not None and p < half - tol:
+                pert = "waste/2 -> " + name
+                vs.append(violation("more_supply_or_less_waste_never_lowers", dict(key, perturbation=pert),
+                                    "%s round %s %s: percent fed %.9g at half the waste, %.9g with no waste at all" % (key["iso3"], key["round"], pert, half, p), dict(rp, perturbation=pert)))
     return vs, stats, p0
 
 
